@@ -72,11 +72,18 @@ def guard_int(x: object) -> TypeGuard[int]:
     return isinstance(x, int)
 def is_a(x: object) -> TypeIs[A]:
     return isinstance(x, A)
+_tog = [False]
+def opq() -> bool:
+    _tog[0] = not _tog[0]
+    return _tog[0]
+def lim() -> int:
+    return 1
 '''
 
 
 class Cond:
-    def __init__(self, src, kind, tested: Ty = None, eq_lits=(), pattern=None):
+    def __init__(self, src, kind, tested: Ty = None, eq_lits=(), pattern=None, guard=None):
+        self.guard = guard      # guard expression of the match case (None = no guard)
         self.src = src          # uses variable name x
         self.kind = kind
         self.tested = tested    # Ty of the tested type (for the widening clause), None = nothing added
@@ -131,6 +138,13 @@ def conditions(rng, thorough: bool) -> list:
     out.append(Cond(None, "match-mapping", ty.OPAQUE, pattern="{'a': _a}"))
     out.append(Cond(None, "match-or", ty.Union(ty.Lit(1), ty.Lit(2)), eq_lits=(1, 2), pattern="1 | 2"))
     out.append(Cond(None, "match-or-class", ty.Union(I, S), pattern="int() | str()"))
+    # the same patterns behind a guard the checker cannot evaluate: an object that matches the pattern but fails the
+    # guard falls through to the later case, so the negative branch must still contain it
+    for c in list(out):
+        if c.pattern is not None and c.kind in ("match-class", "match-literal", "match-or", "match-or-class"):
+            out.append(Cond(None, c.kind + "+opaque-guard", c.tested, eq_lits=c.eq_lits, pattern=c.pattern, guard="opq()"))
+    out.append(Cond(None, "match-capture+opaque-guard", ty.OBJECT, pattern="_y", guard="opq()"))
+    out.append(Cond(None, "match-wildcard+opaque-guard", ty.OBJECT, pattern="_", guard="lim() > 1"))
     return out
 
 
@@ -167,7 +181,7 @@ def render_func(name: str, v: Ty, c: Cond, style: int) -> list:
         return [
             f"def {name}(x: {ann}):",
             "    match x:",
-            f"        case {c.pattern}:",
+            f"        case {c.pattern}{' if ' + c.guard if c.guard else ''}:",
             "            return __probe(1, x)",
             "        case _:",
             "            return __probe(0, x)",
@@ -267,22 +281,25 @@ def check_batch(ctx, batch) -> None:
                 del probes[:]
                 try:
                     f(it.obj)
+                    if c.guard:
+                        f(it.obj)  # the opaque guard alternates: observe both outcomes
                 except Exception as e:  # noqa: BLE001
                     ctx.histo("runtime_exceptions", type(e).__name__)
                     continue
                 if not probes:
                     continue
-                tag, value = probes[0]
-                taken[tag].append(it)
-                ctx.count("branch_observations")
-                t, val = narrowed[tag]
-                m = ty.member(value, t)
-                if m is None:
-                    ctx.count("membership_unknown")
-                elif m is False:
-                    key = lost_key(c, tag, it.obj, v, t)
-                    ctx.violation(key, f"x: {ty.render(v)}; condition `{cond_text(c)}` is {bool(tag)} for {it.src}, but the {'positive' if tag else 'negative'} branch narrows x to {val}",
-                                  wit(v, c, style, it.src))
+                observed = list(probes)
+                for tag, value in observed:
+                    taken[tag].append(it)
+                    ctx.count("branch_observations")
+                    t, val = narrowed[tag]
+                    m = ty.member(value, t)
+                    if m is None:
+                        ctx.count("membership_unknown")
+                    elif m is False:
+                        key = lost_key(c, tag, it.obj, v, t)
+                        ctx.violation(key, f"x: {ty.render(v)}; condition `{cond_text(c)}` is {bool(tag)} for {it.src}, but the {'positive' if tag else 'negative'} branch narrows x to {val}",
+                                      wit(v, c, style, it.src))
             # (c) always-true / always-false verdicts
             if claimed_always_true and taken[0] and c.kind in ("truthy", "not-truthy", "bool-call"):
                 it = taken[0][0] if c.kind != "not-truthy" else (taken[1][0] if taken[1] else None)
@@ -369,13 +386,13 @@ def vkind_of_obj(o, v: Ty) -> str:
 
 
 def cond_text(c: Cond) -> str:
-    return c.src if c.src is not None else f"match x: case {c.pattern}"
+    return c.src if c.src is not None else f"match x: case {c.pattern}{' if ' + c.guard if c.guard else ''}"
 
 
 def wit(v, c, style, obj_src):
     return {"declared": ty.render(v, 0), "style": style, "cond_src": c.src, "pattern": c.pattern, "kind": c.kind,
             "tested": ty.render(c.tested) if c.tested is not None and c.tested.kind != "Opaque" else None,
-            "eq_lits": [ty.lit_source(l) for l in c.eq_lits], "obj": obj_src}
+            "eq_lits": [ty.lit_source(l) for l in c.eq_lits], "obj": obj_src, "guard": c.guard}
 
 
 def shard(ctx) -> None:
@@ -413,7 +430,7 @@ def replay(witness):
     ns = dict(ty.eval_ns())
     v = _find_ty(witness["declared"])
     tested = _find_ty(witness["tested"]) if witness.get("tested") else (ty.OPAQUE if witness["kind"].startswith("match-seq") or witness["kind"] in ("match-mapping", "callable") else None)
-    c = Cond(witness["cond_src"], witness["kind"], tested, tuple(eval(l, ns) for l in witness.get("eq_lits", [])), witness.get("pattern"))
+    c = Cond(witness["cond_src"], witness["kind"], tested, tuple(eval(l, ns) for l in witness.get("eq_lits", [])), witness.get("pattern"), witness.get("guard"))
     check_batch(ctx, [(v, c, witness.get("style", 0))])
     for key, lst in ctx.violations.items():
         return key, lst[0]["what"]
